@@ -62,6 +62,14 @@ def classes():
                 lo, hi = tpl.get("vol", [1, 5])
                 vol = rng.randint(lo, hi)
                 ttl = rng.choice(tpl.get("ttl", [None]))
+                sc = self.program.get("scalars")
+                if sc:
+                    # valid but unusual argument types (e.g. an agent computing its side with numpy)
+                    import numpy as np
+
+                    is_buy = np.bool_(is_buy) if sc == "numpy" else int(is_buy)
+                    if ttl is not None and sc == "numpy":
+                        ttl = np.int64(ttl)
                 if a == "market":
                     return [Order(agent_id=self.agent_id, market_id=m.market_id, is_buy=is_buy, kind=MARKET_ORDER,
                                   volume=vol, ttl=ttl)]
@@ -258,6 +266,12 @@ def classes():
         def process_market_step_end_log(self, log):
             self._p(log, "step_end")
 
+    class FalsyRecordingLogger(RecordingLogger):
+        """a logger that is 'falsy' while it has processed nothing (e.g. a saver exposing its number of rows)."""
+
+        def __len__(self):
+            return sum(1 for l in self.processed if type(l).__name__ in ("OrderLog", "CancelLog", "ExecutionLog", "ExpirationLog"))
+
     class ProbeEvent(EventABC):
         """user-written event with a generated hook table; records every hooked_* call."""
 
@@ -345,6 +359,7 @@ def classes():
         "ScriptAgent": ScriptAgent,
         "ScriptHFTAgent": ScriptHFTAgent,
         "RecordingLogger": RecordingLogger,
+        "FalsyRecordingLogger": FalsyRecordingLogger,
         "ProbeEvent": ProbeEvent,
     }
     return _classes
@@ -416,6 +431,14 @@ def run_runner_case(case, sinks=(), with_logger=True, extra_classes=(), settings
             out.consults.append(ev)
         elif k == "runner_setup_ret":
             out.phase = "setup-done"
+            if case.get("permute_agent_ids"):
+                # the same population as a hand-assembled Simulator would have it: ids are unique but are not
+                # the registration positions (here: reversed)
+                sim = ev["runner"].simulator
+                n = len(sim.agents)
+                for a in sim.agents:
+                    a.agent_id = n - 1 - a.agent_id
+                sim.id2agent = {a.agent_id: a for a in sim.agents}
         elif k == "runner_run_call":
             out.phase = "running"
         elif k == "runner_run_ret":
@@ -426,7 +449,8 @@ def run_runner_case(case, sinks=(), with_logger=True, extra_classes=(), settings
         taps.add_sink(s)
     try:
         settings = settings_obj if settings_obj is not None else copy.deepcopy(case["config"])
-        out.logger = cls["RecordingLogger"]() if with_logger else None
+        out.logger = (cls["FalsyRecordingLogger" if case.get("logger_kind") == "falsy" else "RecordingLogger"]()
+                      if with_logger else None)
         try:
             runner = SequentialRunner(settings=settings, prng=random.Random(case["seed"]), logger=out.logger)
             out.runner = runner
@@ -479,6 +503,8 @@ def gen_program(rng, style="mixed", hostile=None):
         acts.append([rng.choice([0, 1]), {"a": "nothing"}])
     acts = [a for a in acts if a[0] > 0]
     prog = {"p_act": rng.choice([0.3, 0.6, 0.9, 1.0]), "max_batch": rng.choice([1, 1, 2, 4]), "actions": acts}
+    if rng.random() < 0.1:
+        prog["scalars"] = rng.choice(["numpy", "int"])
     if hostile:
         prog["actions"].append([hostile.get("weight", 2), {"a": hostile["a"]}])
     return prog
@@ -623,8 +649,11 @@ def gen_accounting_case(rng, tier, hostile=None, hft=None):
             [rng.choice([0, 2, 4]), {"a": "both", "off": [-2, 2], "vol": [1, 6], "ttl": ttl}],
             [1, {"a": "nothing"}],
         ]
-        return {"p_act": rng.choice([0.5, 0.8, 1.0]), "max_batch": rng.choice([1, 2, 3, 5]),
-                "actions": [a for a in acts if a[0] > 0]}
+        pr = {"p_act": rng.choice([0.5, 0.8, 1.0]), "max_batch": rng.choice([1, 2, 3, 5]),
+              "actions": [a for a in acts if a[0] > 0]}
+        if rng.random() < 0.1:
+            pr["scalars"] = rng.choice(["numpy", "int"])
+        return pr
 
     for g in range(rng.choice([1, 2, 3])):
         mk = names if rng.random() < 0.7 else rng.sample(names, rng.randint(1, len(names)))
@@ -664,6 +693,10 @@ def gen_accounting_case(rng, tier, hostile=None, hft=None):
         sessions[-1]["maxNormalOrders"] = 1
     cfg["simulation"]["sessions"] = sessions
     case = {"drive": "runner", "seed": rng.randrange(1 << 31), "config": cfg, "profile": "accounting"}
+    if rng.random() < 0.12:
+        case["permute_agent_ids"] = True
+    if rng.random() < 0.15:
+        case["logger_kind"] = "falsy"
     if hostile:
         # one agent group carries the hostile action; it fires rarely so that the run first builds state
         g = cfg[rng.choice([n for n in cfg["simulation"]["agents"] if "program" in cfg[n]])]
@@ -704,7 +737,7 @@ def add_builtin_events(rng, cfg, which=None, sessions=None, p_each=0.5):
                  "triggerChangeRate": rng.choice([0.01, 0.05, 0.2])}
         elif cls == "TradingHaltRule":
             e = {"class": cls, "targetMarkets": rng.sample(allm, rng.randint(1, len(allm))),
-                 "triggerChangeRate": rng.choice([0.002, 0.01, 0.05]), "haltingTimeLength": rng.choice([1, 2, 3, 8])}
+                 "triggerChangeRate": rng.choice([0.0, 0.002, 0.01, 0.05]), "haltingTimeLength": rng.choice([1, 2, 3, 8])}
         else:
             raise ValueError(cls)
         if rng.random() < 0.1:
